@@ -91,6 +91,28 @@ def c11(rep, tier):
     cv = counter_of(mm.budget)
     c = strip_casts(mm.budget.get('c')) if mm.budget.get('c') else None
     starts0 = cv is not None and cv.get('init') is not None and strip_casts(cv['init']).get('v') == 0
+    # the condition may carry the change flag as a further conjunct (`changed && pass < passes` instead of `if (!changed) break`): the
+    # bound is the conjunct that mentions the counter
+    c_full = c
+    cond_flags = []
+    if c is not None and c.get('k') == 'bin' and c['op'] == '&&' and cv is not None:
+        conj = []
+
+        def _flat(x):
+            x = strip_casts(x)
+            while x is not None and x.get('k') == 'paren':
+                x = strip_casts(x['e'])
+            if x is not None and x.get('k') == 'bin' and x['op'] == '&&':
+                _flat(x['l'])
+                _flat(x['r'])
+            elif x is not None:
+                conj.append(x)
+        _flat(c)
+        bound = [x for x in conj if any(y.get('k') == 'ref' and y.get('d') == cv['d'] for y in walk_expr(x))]
+        rest = [x for x in conj if x not in bound]
+        if len(bound) == 1 and all(x.get('k') == 'ref' and (x.get('cty') or '').replace('const ', '') == 'bool' for x in rest):
+            c = bound[0]
+            cond_flags = [x.get('d') for x in rest]
     okc = cv is not None and c is not None and c.get('k') == 'bin' and (c['op'] == '<' or (c['op'] == '!=' and starts0)) and \
         strip_casts(c['l']).get('d') == cv['d'] and strip_casts(c['r']).get('d') == mm.passes['d']
     if cv is not None:
@@ -375,6 +397,8 @@ def c11(rep, tier):
                     else:
                         B.unknown('apply_macros: flag after the loop', 'the change flag is cleared after the budget loop under %s' % (gtxt[:100] or 'no condition'))
     # leaving early when nothing changed (computed above: a break out of the budget loop under !flag)
+    if flag is not None and flag.get('d') in cond_flags:
+        early = True        # the loop condition itself carries the flag: a pass that changed nothing ends the loop
     B.check(early, 'apply_macros: stop when stable', 'if (!changed) break', 'the loop does not stop when no pattern matches (error would be reported for finished expansions)',
             W(am, mm.budget, mm.facts))
 
